@@ -635,12 +635,12 @@ func TestCheck(t *testing.T) {
 	}
 	fx := &fixtures{ca: ca}
 	base := covering()
-	n := r.N(600, 6000)
+	n := r.N(600, 40000)
 	if os.Getenv("VERIF_C01_PART") == "second" {
-		n = r.N(300, 2000)
+		n = r.N(300, 12000)
 	}
 	if os.Getenv("VERIF_C01_PART") == "race" {
-		n = r.N(100, 1500)
+		n = r.N(100, 6000)
 	}
 	if n < len(base) {
 		n = len(base)
